@@ -130,6 +130,34 @@ add('C20','break: unknown keys forwarded','break',[('pydoctor/_configparser.py',
 add('C20','break: field without an option','break',[('pydoctor/options.py',"    nosidebar:              int                                     = attr.ib()","    nosidebar:              int                                     = attr.ib()\n    brandnew:               bool                                    = attr.ib()")],['R20.3'])
 add('C20','break: TOML scalars keep their type','break',[('pydoctor/_configparser.py',"                        result[key] = str(value)","                        result[key] = value")],['R20.4'])
 
+# ---------------- variants for the rules added after the second seeding round
+add('C01','break: attribute chain walk no longer advances (loop cannot end)','break',[('pydoctor/astutils.py',"        parts.append(node.attr)\n        node = node.value\n    if isinstance(node, ast.Name):","        parts.append(node.attr)\n    if isinstance(node, ast.Name):")],['R01.4'])
+add('C01','twin: duplicate counter advanced with a plain assignment','twin',[('pydoctor/model.py',"        while (fullName + ' ' + str(i)) in self.allobjects:\n            i += 1","        while (fullName + ' ' + str(i)) in self.allobjects:\n            i = i + 1")])
+add('C03','twin: decorator loop with an explicit pass branch','twin',[('pydoctor/astbuilder.py',"                if deco_name is None:\n                    continue\n                if isinstance(parent, model.Class):","                if deco_name is None:\n                    continue\n                else:\n                    pass\n                if isinstance(parent, model.Class):")])
+add('C03','break: class decorator loop stops at the first call decorator','break',[('pydoctor/astbuilder.py',"                    base = node2fullname(decnode.func, parent)\n                    args = decnode.args","                    base = node2fullname(decnode.func, parent)\n                    args = decnode.args\n                    if base is None:\n                        break")],['R03.2'])
+add('C05','break: masking names only from documented members','break',[('pydoctor/templatewriter/util.py',"        for o in b.contents.values()\n        }","        for o in b.contents.values()\n        if o.docstring\n        }")],['R05.5'])
+add('C05','twin: masking set built with a loop','twin',[('pydoctor/templatewriter/util.py',"    maybe_masking = {\n        o.name\n        for b in baselist[1:]\n        for o in b.contents.values()\n        }","    maybe_masking = set()\n    for b in baselist[1:]:\n        for o in b.contents.values():\n            maybe_masking.add(o.name)")])
+add('C07','break: star import alias glued from module and name','break',[('pydoctor/astbuilder.py',"            _localNameToFullName[name] = expandName(name)","            _localNameToFullName[name] = modname + '.' + name")],['R07.2'])
+add('C07','twin: star import expands through the module object','twin',[('pydoctor/astbuilder.py',"            _localNameToFullName[name] = expandName(name)","            _localNameToFullName[name] = mod.expandName(name)")])
+add('C09','break: handle_returntype replaces the slot','break',[('pydoctor/epydoc2stan.py',"        if not self.return_desc:\n            self.return_desc = ReturnDesc()\n        self.return_desc.type = field.format()","        self.return_desc = ReturnDesc()\n        self.return_desc.type = field.format()")],['R09.6'])
+add('C09','twin: slot emptiness tested with `is None`','twin',[('pydoctor/epydoc2stan.py',"        if not self.yields_desc:\n            self.yields_desc = FieldDesc()\n        self.yields_desc.body = field.format()","        if self.yields_desc is None:\n            self.yields_desc = FieldDesc()\n        self.yields_desc.body = field.format()")])
+add('C09','break: code directive returns early for an empty argument list','break',[('pydoctor/epydoc/markup/restructuredtext.py',"    def run(self) -> List[nodes.Node]:\n        text = '\\n'.join(self.content)","    def run(self) -> List[nodes.Node]:\n        if self.arguments:\n            return []\n        text = '\\n'.join(self.content)")],['R09.7'])
+add('C10','break: package docformat consulted first','break',[('pydoctor/model.py',"        if self._docformat:\n            return self._docformat\n        elif isinstance(self.parent, Package):\n            return self.parent.docformat\n        return None","        if isinstance(self.parent, Package) and self.parent.docformat:\n            return self.parent.docformat\n        return self._docformat or None")],['R10.7'])
+add('C10','twin: own docformat tested with `is not None` first','twin',[('pydoctor/model.py',"        if self._docformat:\n            return self._docformat\n        elif isinstance(self.parent, Package):","        if not self._docformat:\n            pass\n        else:\n            return self._docformat\n        if isinstance(self.parent, Package):")])
+add('C11','break: linker freezes the page url at construction','break',[('pydoctor/linker.py',"        self._page_object: Optional['model.Documentable'] = None\n        self._page_object_switched = False","        self._page_object: Optional['model.Documentable'] = None\n        self._page_object_switched = False\n        self._url = obj.page_object.url")],['R11.5'])
+add('C11','break: inherited docstring rendered without a page context (F18 returns)','break',[('pydoctor/epydoc2stan.py',"        with source.docstring_linker.switch_context(None):\n            return _format_docstring(obj, source)","        return _format_docstring(obj, source)")],['R11.5'])
+add('C11','break: shadowed duplicate stays visible (F17 returns)','break',[('pydoctor/model.py',"        self._privacyClassCache[prev.fullName()] = PrivacyClass.HIDDEN\n","")],['R11.3'])
+add('C13','twin: cursor tests written with the comparison first','twin',[('pydoctor/qnmatch.py',"            while j < n and pat[j] != ']':\n                j = j+1","            while j < n and pat[j] != ']':\n                j += 1")])
+add('C13','break: rules sorted by pattern','break',[('pydoctor/options.py',"    return list(map(functools.partial(parse_privacy_tuple, opt='--privacy'), l))","    return sorted(map(functools.partial(parse_privacy_tuple, opt='--privacy'), l), key=lambda r: r[1])")],['R13.3'])
+add('C14','break: intersphinx link shows the url','break',[('pydoctor/linker.py',"    return tags.a(label, href=url, class_='intersphinx-link')","    return tags.a(url, href=url, class_='intersphinx-link')")],['R14.6'])
+add('C14','twin: transparent tag built through a local','twin',[('pydoctor/linker.py',"        o.system.msg(\"html\", \"don't link to %s\"%o.fullName())\n        return tags.transparent(label)","        o.system.msg(\"html\", \"don't link to %s\"%o.fullName())\n        plain = tags.transparent(label)\n        return plain")])
+add('C16','break: source path follows the module after a move','break',[('pydoctor/model.py',"        self.parent = self.parentMod = new_parent","        self.parent = self.parentMod = new_parent\n        self.source_path = new_parent.source_path")],['R16.4'])
+add('C17','break: inventory stops at the first hidden object (return)','break',[('pydoctor/sphinx.py',"            if not obj.isVisible:\n                continue\n            content.append(self._generateLine(obj).encode('utf-8'))","            if not obj.isVisible:\n                return b''.join(content)\n            content.append(self._generateLine(obj).encode('utf-8'))")],['R17.4'])
+add('C18','twin: package listing sorted by name','twin',[('pydoctor/model.py',"        for path in sorted(package_path.iterdir()):","        for path in sorted(package_path.iterdir(), key=lambda p: p.name):")])
+add('C18','break: template directory listed unsorted (F16 returns)','break',[('pydoctor/templatewriter/__init__.py',"        for entry in sorted(path.iterdir(), key=lambda e: e.name):","        for entry in path.iterdir():")],['R18.2'])
+add('C19','break: property exit keeps walking the body','break',[('pydoctor/astbuilder.py',"                attr.report(f'{attr.fullName()} is both property and staticmethod')\n            raise self.SkipNode()","                attr.report(f'{attr.fullName()} is both property and staticmethod')\n            raise self.SkipChildren()")],['R19.3'])
+add('C20','break: hidden options are not config keys','break',[('pydoctor/_configparser.py',"        known_config_keys: Dict[str, argparse.Action] = {config_key: action for action in self.argument_parser._actions\n","        known_config_keys: Dict[str, argparse.Action] = {config_key: action for action in self.argument_parser._actions if action.dest != 'sourcepath'\n")],['R20.2'])
+
 bad=0
 for prop, vs in C.items():
     for v in vs:
